@@ -1212,6 +1212,9 @@ class ChunkGen:
             return lit(rng.choice([' < ', '<', ' & ', '&', ' > ', '>', ' <> ']))
         r = rng.random()
         if final:
+            if r < 0.2:
+                self.features.add('blank-final-separator')
+                return lit('')          # present but blank: honoured as written ("defaults to sep" applies to an omitted one only)
             return lit(rng.choice([' and ', ' or ', ' & '.replace('&', '+'), '; '.replace(';', ':'), ' - ']))
         if r < 0.75:
             return lit(rng.choice([', ', ',', ' ', '/', '-', ' | ', ':', '; '.replace(';', '.'), '+', ' ']))
